@@ -729,6 +729,10 @@ func scMixedConsumers(t *testing.T, w *World, variant int) {
 	w.Block("p", 5, nil, map[string]any{"a": "CreateConsumer", "sender": "o2", "chain": "mixd-1", "init": map[string]any{"initRev": 1, "spawn": w.now() + 40},
 		"shaping": map[string]any{"allowInactive": true}})
 	w.Block("p", 5, nil, map[string]any{"a": "OptIn", "v": fmt.Sprintf("v%d", n), "c": "c3"})
+	// a second Top-N consumer with a higher N, recomputed after the first one in every epoch
+	w.Block("p", 5, nil, map[string]any{"a": "CreateConsumer", "sender": "o2", "chain": "mixe-1", "init": map[string]any{"initRev": 1, "spawn": w.now() + 45}})
+	w.Block("p", 5, nil, map[string]any{"a": "UpdateConsumer", "sender": "o2", "c": "c4", "newOwner": "gov"})
+	w.GovExec(map[string]any{"a": "UpdateConsumer", "c": "c4", "shaping": map[string]any{"topN": []int{100, 95, 90}[variant%3]}})
 	// on the Top-N consumer only the smallest validators opt in voluntarily
 	w.Block("p", 5, nil, map[string]any{"a": "OptIn", "v": fmt.Sprintf("v%d", n), "c": "c0"}, map[string]any{"a": "OptIn", "v": fmt.Sprintf("v%d", n-1), "c": "c0", "key": "k1"})
 	for i := 0; i < 8; i++ {
